@@ -214,6 +214,24 @@ def check_code(co):
         bc = SCFG.bcmap_from_bytecode(bf.bc)
         if tuple(i.offset for i in b.get_instructions(bc)) != m:
             return ('get_instructions', {'block': (b.begin, b.end)})
+    # history: building again - after the first graph has been handed out and transformed - gives the same graph, freshly
+    # built (the property speaks of "the graph built from its bytecode", whatever was done with an earlier result)
+    if len(g) <= 14:
+        dump = {k: (type(v).__name__, v.begin, v.end, v._jump_targets, v.backedges) for k, v in g.items()}
+        try:
+            bf.scfg.restructure()
+        except Exception:
+            pass
+        try:
+            bf2 = ByteFlow.from_bytecode(co)
+        except Exception as e:
+            return ('rebuild-raises', {'exception': repr(e)[:160]})
+        if bf2.scfg is bf.scfg or bf2.scfg.graph is bf.scfg.graph:
+            return ('rebuild-shares-graph', {})
+        dump2 = {k: (type(v).__name__, getattr(v, 'begin', None), getattr(v, 'end', None), v._jump_targets, v.backedges)
+                 for k, v in bf2.scfg.graph.items()}
+        if dump2 != dump:
+            return ('rebuild-differs', {'first': sorted(dump)[:6], 'second': sorted(dump2)[:6]})
     return None
 
 
